@@ -494,3 +494,43 @@ class AssignCompoundPriority:
         C.check(z3.ForAll([x], z3.Implies(z3.Not(N[x]), cp[x] == own[x])), "assign_compound_priority.post.C07.other_entries_untouched", {"C07"}, "post")
         C.check(z3.And(g.N == snap[0], g.debug.val == snap[3], g.setup.val == snap[4]), "assign_compound_priority.frame.graph_and_other_tables_untouched", {"C15", "C13"}, "frame")
         return "return"
+
+
+# ---- remove_any_root_node ---------------------------------------------------------------------------------------------
+class RemoveAnyRootNode:
+    """DiGraphEx.remove_any_root_node: removes and returns SOME node without predecessor; ValueError iff there is none"""
+
+    module = "tawazi._dag.digraph"
+    qualname = "DiGraphEx.remove_any_root_node"
+
+    def __init__(self):
+        self.loops = {0: self.Loop()}
+
+    class Loop(LoopSpec):
+        carried = ()
+
+        def inv(self, env, st):
+            g = C.ghost["g"]
+            return [
+                ("graph_untouched_while_searching", g.N == C.ghost["N0"], {"C20", "C15"}),
+                ("seen_nodes_are_not_roots", z3.ForAll([x], z3.Implies(st.seen[x], z3.Not(g.is_root(x, C.ghost["N0"])))), {"C20", "C09"}),
+            ]
+
+    def namespace(self):
+        return common_ns()
+
+    def run(self, f, case):
+        g = new_graph()
+        N0, c0 = g.N, g.cN
+        C.ghost.update(g=g, N0=N0)
+        n = "remove_any_root_node"
+        try:
+            r = f(g)
+        except ValueError:
+            C.check(z3.ForAll([x], z3.Not(g.is_root(x, N0))), f"{n}.exceptional.ValueError_only_if_no_node_is_a_root", {"C20", "C14"}, "post")
+            C.check(g.N == N0, f"{n}.exceptional.graph_untouched", {"C15"}, "post")
+            return "raises ValueError"
+        rt = term(r)
+        C.check(g.is_root(rt, N0), f"{n}.post.C20.the_removed_node_had_no_predecessor_in_the_graph", {"C20", "C02"}, "post")
+        C.check(z3.And(g.N == z3.Store(N0, rt, False), g.cN == c0 - 1), f"{n}.post.C20.exactly_that_node_is_removed", {"C20", "C09"}, "post")
+        return "return"
